@@ -20,8 +20,11 @@ int main()
     if (line.empty() || line[0] == '#') {continue;}
     auto t = vh::split(line);
     if (t[0] == "fwd" && t.size() == 6) {
+      // the converter must own its ellipsoid: the variable it was built from is reused for another datum right after
+      // construction (as a caller looping over datums would), which must not change the converter
       EarthEllipsoid el(vh::rf(t[1]), vh::rf(t[2]));
       ECEFConverter conv(el);
+      el = EarthEllipsoid(6371000.0, 6371000.0);
       GeodeticCoordinates g;
       g.latitude = vh::rf(t[3]); g.longitude = vh::rf(t[4]); g.altitude = vh::rf(t[5]);
       Eigen::Vector3d p = conv.toECEF(g);
@@ -31,8 +34,11 @@ int main()
       if (ok) {std::cout << geoA::join({r.latitude, r.longitude, r.altitude});} else {std::cout << "HANG HANG HANG";}
       std::cout << "\n";
     } else if (t[0] == "inv" && t.size() == 6) {
+      // the converter must own its ellipsoid: the variable it was built from is reused for another datum right after
+      // construction (as a caller looping over datums would), which must not change the converter
       EarthEllipsoid el(vh::rf(t[1]), vh::rf(t[2]));
       ECEFConverter conv(el);
+      el = EarthEllipsoid(6371000.0, 6371000.0);
       Eigen::Vector3d p(vh::rf(t[3]), vh::rf(t[4]), vh::rf(t[5]));
       GeodeticCoordinates r;
       bool ok = geoA::guarded([&]() {r = conv.toWGS84(p);});
